@@ -104,6 +104,8 @@ def gen_op(rng, op, sizes, kinds, st):
     if op == "x":
         return "x %d" % (rng.loguniform(1, 50) if rng.chance(9, 10) else 100000)
     if op == "o":
+        if rng.chance(1, 3):	# ... by an arbitrary number of bytes: the allocator's next grant starts unaligned
+            return "O %d" % rng.choice([1, 7, 8, 13, 100, 4095, 4097, rng.range(1, 20000)])
         return "o %d" % rng.loguniform(1, 40)
     if op == "v":
         return "v %d" % rng.range(1, 2)
